@@ -240,7 +240,16 @@ func (eng *Engine) Verify(fn *ssa.Function, spec *FuncSpec, tags map[string]bool
 				panic(fmt.Sprintf("%s:%d: call-site clause for %q never applied: no such call in %s (contract out of date?)", c.File, c.Line, c.Callee, res.Func))
 			}
 			if c.Kind == KAssertCall && !e.clauseHit[c] && e.wantClause(c) {
-				panic(fmt.Sprintf("%s:%d: call-site clause for %q never applied: no such call in %s (contract out of date?)", c.File, c.Line, c.Callee, res.Func))
+				if c.Overrides != "" || c.Label == "" {
+					panic(fmt.Sprintf("%s:%d: call-site clause for %q never applied: no such call in %s (contract out of date?)", c.File, c.Line, c.Callee, res.Func))
+				}
+				// a labelled demand on a call that no longer exists: the call the property relies on was removed
+				// (WriteFile with mode 0600 replaced by os.Create, ...). A named obligation that fails, not an
+				// engine error.
+				e.obls = append(e.obls, &Obligation{Name: res.Func + "#" + c.Label + ".call-missing", Func: res.Func, Kind: "structural", Label: c.Label, Tags: c.Tags,
+					Pos: fmt.Sprintf("%s:%d", c.File, c.Line), Structural: true, StructOK: false, Guard: "true",
+					Goal:      "a call of " + c.Callee + " exists in " + res.Func + " (the clause constrains it)",
+					StructMsg: "no call of " + c.Callee + " is left in " + res.Func + ": the call this clause constrains was removed"})
 			}
 		}
 	}
